@@ -29,6 +29,7 @@ type CallRec struct {
 	Kinds         []string            // transport kind seen by each handler entry
 	InputMeta     []map[string]string // InputMetadata seen per turn
 	InputSums     []int64
+	InputTypes    []string // Arrow type of the first input column, per exchange turn
 	Principals    []string
 	SawToken      bool // a handler-visible value looked like a state token
 	Hashes        []string
@@ -253,10 +254,23 @@ func sortedKeys(m map[string]string) []string {
 
 func (c *StreamCore) schema() *arrow.Schema {
 	if c.Dyn {
+		if c.S.Dyn2 {
+			return DynOutSchema2
+		}
 		return DynOutSchema
 	}
 	return OutSchema
 }
+
+// DynOutSchema2 is a second, shorter run-time schema (so that two dynamic
+// streams alive at once differ in what their call state must carry).
+var DynOutSchema2 = arrow.NewSchema([]arrow.Field{
+	{Name: "nonce", Type: arrow.PrimitiveTypes.Int64},
+	{Name: "turn", Type: arrow.PrimitiveTypes.Int64},
+	{Name: "echo", Type: arrow.PrimitiveTypes.Int64},
+	{Name: "pad", Type: arrow.BinaryTypes.String},
+	{Name: "d2", Type: arrow.PrimitiveTypes.Int64},
+}, nil)
 
 func (c *StreamCore) emit(out *vgirpc.OutputCollector, st *Step, echo int64) error {
 	rows := 1
@@ -282,7 +296,14 @@ func (c *StreamCore) emit(out *vgirpc.OutputCollector, st *Step, echo int64) err
 		db.Append(true)
 	}
 	cols := []arrow.Array{nb.NewArray(), tb.NewArray(), eb.NewArray(), pb.NewArray()}
-	if c.Dyn {
+	if c.Dyn && c.S.Dyn2 {
+		d2 := array.NewInt64Builder(mem)
+		for i := 0; i < rows; i++ {
+			d2.Append(int64(c.Turn) * 2)
+		}
+		cols = append(cols, d2.NewArray())
+		d2.Release()
+	} else if c.Dyn {
 		cols = append(cols, db.NewArray())
 	}
 	defer func() {
@@ -330,6 +351,19 @@ func (c *StreamCore) step(out *vgirpc.OutputCollector, producer bool, echo int64
 	case "panic":
 		c.Dead = true
 		panic(panicValue(st.Panic, c.S.Nonce))
+	case "emitpanic":
+		// fails after having emitted: the turn is still a failed turn
+		c.Dead = true
+		if err := c.emit(out, st, echo); err != nil {
+			return err
+		}
+		panic(panicValue(st.Panic, c.S.Nonce))
+	case "emiterror":
+		c.Dead = true
+		if err := c.emit(out, st, echo); err != nil {
+			return err
+		}
+		return st.Err.Build()
 	case "noemit":
 		c.Dead = true
 		return nil
@@ -376,12 +410,17 @@ func (s *ExchState) Exchange(_ context.Context, input arrow.RecordBatch, out *vg
 			}
 		}
 	}
+	inType := "none"
+	if input.NumCols() > 0 {
+		inType = input.Column(0).DataType().String()
+	}
 	Rec.With(s.S.Nonce, func(c *CallRec) {
 		c.ExchangeCalls++
 		if s.Dead {
 			c.TurnsAfterEnd++
 		}
 		c.InputSums = append(c.InputSums, sum)
+		c.InputTypes = append(c.InputTypes, inType)
 		observe(c, cc)
 	})
 	yield("state.exchange")
@@ -460,6 +499,9 @@ func streamResult(s *Script, dyn bool, kind string) *vgirpc.StreamResult {
 	res := &vgirpc.StreamResult{OutputSchema: OutSchema}
 	if dyn {
 		res.OutputSchema = DynOutSchema
+		if s.Dyn2 {
+			res.OutputSchema = DynOutSchema2
+		}
 	}
 	if kind == "producer" {
 		res.State = &ProdState{core}
